@@ -19,7 +19,7 @@ import (
 func init() {
 	Register(&Spec{
 		ID:          "C08",
-		Explanation: "Decides structural necessary conditions of robustness against a hostile peer: (R1) every index into Conn.questions/exports/embargoes is justified by a dominating length test, a non-nil find* result for the same id, or an id that comes from the local id generator; (R2) every entry read from a Conn table (or returned by findExport/findEmbargo) is tested non-nil before a field is accessed; (R3) the error passed to annotate/errors.Annotate (which panics on nil) is proven non-nil on its path, and a known-nil argument is always reported; (R4) a func-typed struct field that some site believes can be nil is tested before every call through it; (R5) message dispatch switches have non-panicking defaults and the target switch in handleCall covers what parseMessageTarget accepts; (R6) the error of every handler reaches receive's return; (R7) the explicit panics reachable from the receive loop are the enumerated ones; (R8) handlers keep the lock discipline and never run application code or block under Conn.mu. Does NOT decide that each reply is the protocol-correct one, nor liveness under real scheduling.",
+		Explanation: "Decides structural necessary conditions of robustness against a hostile peer: (R1) every index into Conn.questions/exports/embargoes is justified by a dominating length test, a non-nil find* result for the same id, or an id that comes from the local id generator; (R2) every entry read from a Conn table (or returned by findExport/findEmbargo) is tested non-nil before a field is accessed; (R3) the error passed to annotate/errors.Annotate (which panics on nil) is proven non-nil on its path, and a known-nil argument is always reported; (R4) a func-typed struct field that some site believes can be nil is tested before every call through it; (R5) message dispatch switches have non-panicking defaults and the target switch in handleCall covers what parseMessageTarget accepts; (R6) the error of every handler reaches receive's return; (R7) the explicit panics reachable from the receive loop are the enumerated ones; (R8) handlers keep the lock discipline and never run application code or block under Conn.mu. (R2t) a pointer obtained from a comma-ok type assertion is dereferenced, also inside a closure that captures it, only where ok holds; (R9) every tasks.Add(1) is matched by a Done on every path. Does NOT decide that each reply is the protocol-correct one, nor liveness under real scheduling.",
 		Run:         runC08,
 	})
 }
@@ -27,6 +27,9 @@ func init() {
 var connTables = []string{"questions", "answers", "exports", "imports", "embargoes"}
 
 func runC08(ctx *Ctx) {
+	// every tasks.Add(1) is matched by a Done on every path (shutdown waits on the task group): shared with C09-R5t
+	ruleTaskPairing(ctx, "C08-R9")
+	ruleAssertedPointerUse(ctx, "C08-R2t", "rpc")
 	ruleUntrustedIndex(ctx, "C08-R1")
 	ruleTableEntryNil(ctx, "C08-R2", "rpc")
 	ruleAnnotateNonNil(ctx, "C08-R3")
